@@ -99,20 +99,19 @@ Definition C18_send_closes_full_statement : Prop :=
 (* "what every other client observes is the same as if the monitor were absent": the history in which x
    becomes a monitor against the history in which x simply disconnects at that point.  The switch releases
    x's names first-to-last, a disconnect last-to-first, so within that one step the comparison is up to order. *)
-Definition trace_after (h : list event) : list (list item) := snd (run init h).
-
 Definition C18_transparent_statement : Prop :=
-  forall h1 x s fs h2,
-    ordinary (state_after h1) x ->
-    s <> 0 ->
-    let ha := h1 ++ EBecomeMonitor x s fs :: h2 in
-    let hb := h1 ++ EDisconnect x :: h2 in
-    (* the switch step *)
+  forall h1 x s fs,
+    ordinary (state_after h1) x -> s <> 0 ->
+    (* the switch step itself, against x leaving *)
     (forall c, c <> x -> is_monitor (state_after h1) c = false ->
-       Permutation (view c (nth (length h1) (trace_after ha) [])) (view c (nth (length h1) (trace_after hb) []))) /\
-    (* every later step *)
-    (forall k c, (length h1 < k)%nat -> ordinary (state_after (firstn k ha)) c ->
-       view c (nth k (trace_after ha) []) = view c (nth k (trace_after hb) [])).
+       Permutation (view c (snd (step (state_after h1) (EBecomeMonitor x s fs))))
+                   (view c (snd (step (state_after h1) (EDisconnect x))))) /\
+    (* every later step: whatever happens next (h2) and then e, every ordinary client reads the same *)
+    (forall h2 e c,
+       let sa := state_after (h1 ++ EBecomeMonitor x s fs :: h2) in
+       let sb := state_after (h1 ++ EDisconnect x :: h2) in
+       ordinary sa c ->
+       ordinary sb c /\ view c (snd (step sa e)) = view c (snd (step sb e))).
 
 (* every connection that is a monitor after a step got each item of that step at most once, whatever the way *)
 Definition C18_once_total_full_statement : Prop :=
